@@ -386,7 +386,11 @@ struct World
         return;
       bool const front = op.get("front") != 0;
       std::size_t const k = n == "insert_v" ? op.getu("k") % (ma.ch.size() + 1) : (front ? 0 : ma.ch.size());
-      long const id = counter++;
+      // dup: reuse the value of an existing node, so that siblings with equal values (ties for
+      // sort, equal keys for ==) but different subtrees occur
+      long const id = op.has("dup") ? all[op.getu("dup") % all.size()].m->id : counter++;
+      if (op.has("dup"))
+        ctx.probe("duplicate_value_inserted");
       sim::Val v(id);
       bool const rv = op.get("rv") != 0;
       Tree *ret = nullptr;
@@ -562,6 +566,20 @@ struct World
     }
     if (n == "sort")
     {
+      if (ma.ch.size() > 16)
+        ctx.probe("sort_of_more_than_16_children");
+      {
+        bool ties = false;
+        for (std::size_t x = 0; x < ma.ch.size() && !ties; ++x)
+          for (std::size_t y = x + 1; y < ma.ch.size(); ++y)
+            if (ma.ch[x]->id == ma.ch[y]->id)
+            {
+              ties = true;
+              break;
+            }
+        if (ties)
+          ctx.probe("sort_with_tied_values");
+      }
       bool const ok = guarded(n, [&] {
         if (op.get("pred") != 0)
           ta.sort([](sim::Val const &x, sim::Val const &y) { return y < x; });
@@ -930,12 +948,28 @@ void generate(sim::Rng &rng, sim::Plan &p, bool)
   }
   unsigned const len = static_cast<unsigned>(rng.range(1, 40));
   unsigned const fault_pct = faulty ? static_cast<unsigned>(rng.range(2, 20)) : 0;
+  // swarm: "wide" runs grow one node to many children with tied values and sort it
+  bool const wide = rng.chance(1, 6);
+  unsigned const dup_pct = wide ? 40 : static_cast<unsigned>(rng.below(20));
+  if (wide)
+  {
+    bag.clear();
+    for (unsigned i = 0; i < 12; ++i)
+      bag.push_back(i % 2 == 0 ? "push_v" : "insert_v");
+    bag.push_back("sort");
+    bag.push_back("sort");
+    bag.push_back("push_copy");
+    bag.push_back("observe");
+    bag.push_back("erase1");
+  }
   p.ops.push_back(sim::Op("new_root").set("rv", static_cast<long>(rng.below(2))));
   for (unsigned i = 0; i < len; ++i)
   {
     sim::Op op(rng.pick(bag));
     std::string const &n = op.name;
-    op.set("node", static_cast<long>(rng.below(64)));
+    op.set("node", wide && rng.chance(3, 4) ? 0L : static_cast<long>(rng.below(64)));
+    if ((n == "push_v" || n == "insert_v") && rng.below(100) < dup_pct)
+      op.set("dup", static_cast<long>(rng.below(64)));
     if (n == "new_root" || n == "push_v" || n == "insert_v" || n == "value")
       op.set("rv", static_cast<long>(rng.below(2)));
     if (n == "push_v" || n == "push_copy" || n == "push_root" || n == "pop")
